@@ -125,5 +125,6 @@ theorem first_report_records_the_logs (l l' : Loop) (a : Addr) (lost : Bool) (n 
         rw [hp', hplog, List.any_eq_true]
         exact ⟨⟨s, rid⟩, hmem, by simp⟩
 
+
 #print axioms first_report_records_the_logs
 end Drummer
